@@ -126,7 +126,7 @@ theorem dataPage_ok (L : Libs) (verify : Bool) (mode : Mode) (leaf : LeafInfo) (
   refine ⟨⟨hb, comp, ⟨0, ((v1Body leaf .v1 es repB defB valB).length : Int), (comp.length : Int),
     (if pl.crc then some (crcField comp) else none), (es.length : Int), valueEncTag pl.values⟩⟩, hbytes, ?_⟩
   have hdl : (decodedOfEntries es).defs.length = es.length := by simp [decodedOfEntries]
-  refine ⟨⟨hparse, rfl, by simp, ?_⟩, rfl, by simp [decodedOfEntries], crcBad_crcField verify pl.crc comp, ?_⟩
+  refine ⟨⟨hparse, rfl, by simp, ?_⟩, rfl, by simp [decodedOfEntries], crcBad_crcField verify pl.crc comp, ?_, ?_⟩
   · intro hm
     exact pageWindow_sound hb comp ⟨0, ((v1Body leaf .v1 es repB defB valB).length : Int), (comp.length : Int),
       (if pl.crc then some (crcField comp) else none), (es.length : Int), valueEncTag pl.values⟩ hparse
@@ -143,6 +143,9 @@ theorem dataPage_ok (L : Libs) (verify : Bool) (mode : Mode) (leaf : LeafInfo) (
           | none => rw [he] at hv; simp [valueBytes] at hv
           | some d => rfl))
         hleaf.flba hleaf.levels hbody hdict.size
+  · intro h0
+    rw [hdl] at h0
+    rw [List.eq_nil_of_length_eq_zero h0]; rfl
 
 /-! ### the data pages of a chunk -/
 
@@ -151,17 +154,17 @@ theorem take_drop_parts {α : Type} (n : Nat) (es : List α) (parts : List (List
   simp [h]
 
 /-- **the data pages** the reference writer lays out back to back are, for the loaders, a list of pages
-each decoding to its share of the entries, none empty -/
+each decoding to its share of the entries (a page may hold none, F63) -/
 theorem dataPages_ok (L : Libs) (verify : Bool) (mode : Mode) (leaf : LeafInfo) (cm : ThriftParquet.ColumnMetaData) (codec : Nat)
     (dict : Option (List Bytes)) (hcm : cm.codec = (codec : Int)) (hdict : DictHyp leaf dict) (hleaf : LeafHyp leaf) :
     ∀ (pls : List PageLayout) (es : List Entry) (w : Written),
-      (∀ pl ∈ pls, PageAdm pl ∧ pl.comp.codec = codec ∧ pageExtrasDepthOk pl = true ∧ 0 < pl.count) →
+      (∀ pl ∈ pls, PageAdm pl ∧ pl.comp.codec = codec ∧ pageExtrasDepthOk pl = true) →
       writeDataPages leaf dict pls es = some w →
       (∀ e ∈ es, wellFormedEntry leaf e = true) → w.bytes.length < 2 ^ 31 → w.usize < 2 ^ 31 → es.length < 2 ^ 31 →
       LibsDecode L w.oracle → (mode = .fread → pagesWindowOk leaf dict pls es = true) →
       ∃ (ps : List (RPage × Decoded)) (parts : List (List Entry)), w.bytes = pagesBytes ps ∧ parts.flatten = es ∧
         ps.map (·.2) = parts.map decodedOfEntries ∧ ps.length = pls.length ∧
-        ∀ q ∈ ps, DataPageOk L verify mode (colOfLeaf leaf cm) (dict.map (dictOf leaf)) q.1 q.2 ∧ q.2.defs ≠ []
+        ∀ q ∈ ps, DataPageOk L verify mode (colOfLeaf leaf cm) (dict.map (dictOf leaf)) q.1 q.2
   | [], es, w, _, hw, _, _, _, _, _, _ => by
     simp only [writeDataPages] at hw
     split at hw
@@ -184,7 +187,7 @@ theorem dataPages_ok (L : Libs) (verify : Bool) (mode : Mode) (leaf : LeafInfo) 
           subst hw
           simp only [List.length_append] at hlen
           simp only at hus hL
-          obtain ⟨hadm, hcodec, hdepth, hpos⟩ := hpl pl (by simp)
+          obtain ⟨hadm, hcodec, hdepth⟩ := hpl pl (by simp)
           have hwin1 : mode = .fread → pageWindowOk a.bytes = true := by
             intro hm
             have := hwin hm
@@ -208,12 +211,7 @@ theorem dataPages_ok (L : Libs) (verify : Bool) (mode : Mode) (leaf : LeafInfo) 
           · simp [hlen']
           · intro q hq
             rcases List.mem_cons.mp hq with rfl | hq'
-            · refine ⟨hpok, ?_⟩
-              simp only [decodedOfEntries]
-              intro h0
-              have : (List.map (fun x => x.dl) (List.take pl.count es)).length = 0 := by rw [h0]; rfl
-              simp only [List.length_map, List.length_take] at this
-              omega
+            · exact hpok
             · exact hall q hq'
 
 /-! ### the dictionary page -/
@@ -277,11 +275,11 @@ theorem vals_length_nn (leaf : LeafInfo) : ∀ (es : List Entry), (∀ e ∈ es,
       omega
 
 open Carquet.Proofs.Cursor in
-theorem pageOk_entries (leaf : LeafInfo) (es : List Entry) (hwf : ∀ e ∈ es, wellFormedEntry leaf e = true) (hne : es ≠ []) :
+theorem pageOk_entries (leaf : LeafInfo) (es : List Entry) (hwf : ∀ e ∈ es, wellFormedEntry leaf e = true) :
     PageOk leaf.maxDef (cursorPage (decodedOfEntries es)) := by
   unfold PageOk cursorPage decodedOfEntries
   simp only
-  refine ⟨by simpa using hne, by simp, vals_length_nn leaf es hwf, ?_⟩
+  refine ⟨by simp, vals_length_nn leaf es hwf, ?_⟩
   intro d hd
   simp only [List.mem_map] at hd
   obtain ⟨e, he, rfl⟩ := hd
